@@ -75,6 +75,10 @@ Definition wrun_gen (c : cfg) (h : Z -> Z) : world BS -> list wop -> world BS * 
        (next_fn (c_probing c)) (c_logStart c) (calc_capacity (c_pol c) (c_cap c)) (shift_fn (c_pol c) (c_cap c)) max_log.
 Definition wstep_cfg (c : cfg) : world BS -> wop -> world BS * out := wstep_gen c (hash_fn (c_hash c)).
 Definition winit_cfg : world BS := winit BS.
+Definition it_begin_cfg : hset BS -> iter := it_begin BS.
+Definition it_next_cfg : hset BS -> iter -> iter := it_next BS.
+Definition it_get_cfg : hset BS -> iter -> option item := it_get BS.
+Definition it_remove_cfg (c : cfg) : hset BS -> iter -> hset BS * iter := it_remove BS bs0 (c_wf0 c).
 Definition shape_cfg (c : cfg) : hset BS -> list (Z * list (list Z * bool * Z)) := shape BS (decode_fn (c_bound c)).
 Definition init_cfg : hset BS := hinit BS.
 Definition traverse_cfg : hset BS -> list item := traverse BS.
